@@ -381,6 +381,9 @@ STYLE_CONTENTS = [{"italics": True}, {"bold": True}, {"underline": True}, {"ital
                   {"font-size": "12px"}, {}, {"color": "blue"}, {"text-align": "right"}, {"font-family": "Arial"},
                   {"display-align": "before", "italics": False}, {"class": "s1"}]
 REL_LAYOUTS = [None, None, "rel_fit", "rel_noext", "rel_over", "align", "pad", "vtt", "empty"]
+CONFLICTING_CLASSES = [("ca", {"italics": True, "bold": False, "color": "red"}),
+                       ("cb", {"italics": False, "bold": True, "underline": True}),
+                       ("cc", {"underline": False, "italics": True, "bold": True, "class": "ca"})]
 SET_LEVEL_POOL = ["rel_fit", "rel_fit", "align", "pad", "rel_noext", "rel_over", "abs"]
 VIDEO_SIZES = [(640, 360), (640, 360), (1280, 720), (720, 576)]
 
@@ -481,6 +484,20 @@ def gen_spec(rng, mode=None):
         for sel in rng.sample(["s1", "p", "span", "big"], rng.randint(0, 3)):
             styles.append([sel, dict(rng.choice([{"color": "red"}, {"text-align": "left", "font-size": "10px"}, {},
                                                  {"italics": True}, {"lang": "en-US"}]))])
+    if all_caps and rng.random() < 0.25:
+        # multi-class style references (what DFXPReader yields for style="a b") whose classes CONFLICT on the flags a
+        # writer turns into tags; the set-level styles define the classes
+        styles = [list(x) for x in (styles or [])] + [[k, dict(v)] for k, v in CONFLICTING_CLASSES]
+        for c in all_caps:
+            if "same_as" in c:
+                continue
+            if rng.random() < 0.5:
+                ks = rng.sample(["ca", "cb", "cc"], rng.randint(2, 3))
+                c["style"] = {"classes": ks, "class": " ".join(ks)}
+            for nd in c["nodes"]:
+                if nd[0] == "s" and rng.random() < 0.6:
+                    ks = rng.sample(["ca", "cb", "cc"], rng.randint(2, 3))
+                    nd[2] = {"classes": ks, "class": " ".join(ks)}
     spec = {"layout": lay() if rng.random() < 0.4 else None, "styles": styles, "langs": langs}
     if alias and styles and rng.random() < 0.4:
         spec["styles_alias"] = True
